@@ -315,6 +315,17 @@ func (rm *room) defaultPL(creator user) map[string]any {
 	}
 	pl := map[string]any{"users": users, "users_default": 0, "events_default": 0, "state_default": sim.Pick(rm.t, []int{50, 0, 50}),
 		"ban": 50, "kick": 50, "redact": 50, "invite": sim.Pick(rm.t, []int{0, 50}), "events": map[string]any{}}
+	if rm.t.Chance(200) {
+		// everybody is a moderator by default and some users are listed at
+		// exactly that level
+		pl["users_default"] = 50
+		for _, u := range rm.users[1:] {
+			if rm.t.Bool() && !(rm.priv && rm.isCreator(u.id)) {
+				users[u.id] = 50
+			}
+		}
+		rm.r.Probe("room_with_users_default_50")
+	}
 	if rm.t.Chance(250) {
 		// a room whose defaults are above the moderators' level, with explicit
 		// lower entries per event type: removing an entry raises its threshold
